@@ -145,4 +145,51 @@ mod verif_kani_datetime {
         kani::cover!(r.is_err());
         core::mem::forget(r);
     }
+
+    // full-date in situ for four representative years (common, leap, century non-leap, 400-year
+    // leap) and EVERY two-digit month and day: Ok <=> O-date valid_date.  Bounded in the year
+    // (V4 proves the leap rule slice for all years); complete in month and day.
+    fn full_date_year(y: u16) {
+        let m: u8 = kani::any();
+        let d: u8 = kani::any();
+        kani::assume(m <= 99 && d <= 99);
+        let buf: [u8; 11] = [
+            b'0' + (y / 1000) as u8, b'0' + (y / 100 % 10) as u8, b'0' + (y / 10 % 10) as u8, b'0' + (y % 10) as u8,
+            b'-', b'0' + m / 10, b'0' + m % 10, b'-', b'0' + d / 10, b'0' + d % 10, b' ',
+        ];
+        let mut input = match input_of(&buf) {
+            Some(i) => i,
+            None => return,
+        };
+        let r = full_date(&mut input);
+        let want = o_date::valid_date(y, m, d);
+        match &r {
+            Ok(date) => {
+                assert!(want, "full-date accepts a date that is not on the calendar");
+                assert!(date.year == y && date.month == m && date.day == d, "full-date fields differ from the digits");
+                assert!(input.eof_offset() == 1, "full-date consumed the wrong number of bytes");
+            }
+            Err(_) => assert!(!want, "full-date rejects a calendar date"),
+        }
+        kani::cover!(r.is_ok());
+        kani::cover!(r.is_err());
+        core::mem::forget(r);
+    }
+
+    #[kani::proof]
+    #[kani::unwind(14)]
+    #[kani::stub(alloc::fmt::format, stub_format)]
+    fn k2_full_date_y2023() { full_date_year(2023); }
+    #[kani::proof]
+    #[kani::unwind(14)]
+    #[kani::stub(alloc::fmt::format, stub_format)]
+    fn k2_full_date_y2024() { full_date_year(2024); }
+    #[kani::proof]
+    #[kani::unwind(14)]
+    #[kani::stub(alloc::fmt::format, stub_format)]
+    fn k2_full_date_y1900() { full_date_year(1900); }
+    #[kani::proof]
+    #[kani::unwind(14)]
+    #[kani::stub(alloc::fmt::format, stub_format)]
+    fn k2_full_date_y2000() { full_date_year(2000); }
 }
